@@ -409,6 +409,31 @@ def rule_x4(repo, col):
         col.decide("X4", m, n, want is not None and lit == want, "soft clause of %s is violated exactly when the atom is %s" % (w, "true" if w == wp else "false"),
                    "the soft clause [-wt(%s), %s] pairs the %s weight with the wrong literal: the cost -log(weight) must be paid exactly when the atom takes that value "
                    "(positive weight: clause [-a]; negative weight: clause [a])" % (w, lit, "positive" if w == wp else "negative"), function="CNF._contents")
+    # the guard of a soft clause: emitted for every weight that is not the semiring one - in particular for the semiring ZERO (an impossible literal must carry the
+    # largest cost, not none)
+    for n, w, lit in soft:
+        cur, child = parents.get(n), n
+        guard = None
+        while cur is not None and cur is not f.node:
+            if isinstance(cur, ast.If) and child in cur.body and w in norm(cur.test):
+                guard = cur
+                break
+            child, cur = cur, parents.get(cur)
+        if guard is None:
+            col.ok("X4", m, n, "soft clause of %s is emitted unconditionally" % w, function="CNF._contents")
+            continue
+        bad = []
+        for one, zero in ((False, False), (False, True), (True, False)):
+            mapping = [("semiring.is_one(%s)" % w, one), ("semiring.is_zero(%s)" % w, zero), ("self.semiring.is_one(%s)" % w, one), ("self.semiring.is_zero(%s)" % w, zero)]
+            v = dtable.eval_atom(norm(guard.test), mapping, default=None)
+            if v is None:
+                raise AnalysisError("CNF._contents: guard of the soft clause of %s not decidable: %s" % (w, norm(guard.test)[:100]))
+            if v != (not one):
+                bad.append("weight %s: %s" % ("one" if one else "zero" if zero else "strictly between", "emitted" if v else "not emitted"))
+        col.decide("X4", m, guard, not bad, "the soft clause of %s is emitted for every weight but the semiring one" % w,
+                   "the soft clause of %s is guarded by `%s` (%s): a literal whose weight is the semiring zero is impossible and must carry the maximal cost - without its soft clause the "
+                   "MaxSAT solver sets it for free and the reported world has probability 0 although a possible world satisfies the evidence" % (w, norm(guard.test)[:80], "; ".join(bad)),
+                   construct="CNF._contents: guard of the soft clause of %s" % w, function="CNF._contents")
     for n, a in hard:
         ok = isinstance(a, ast.BinOp) and isinstance(a.op, ast.Add) and norm(a).startswith("w_max + ")
         col.decide("X4", m, n, ok, "formula clauses and constraints are hard (top weight)", "the clause %s is emitted without the top weight w_max: a clause of the formula or an evidence constraint "
